@@ -108,6 +108,39 @@ def gen_problem(g, conj):
     raise MachineryError("generator yields no problem inside the C30 input class")
 
 
+def retarget_goal(rng, P):
+    """replace the goals by a conjunction of 1-2 ground literals that some effect can write (syntactic choice):
+    such goals are rarely true in every possible initial state, so that plans are not empty"""
+    cands = []
+    for a in P["actions"]:
+        for ef in a["effects"]:
+            if ef["v"]["op"] != "const":
+                continue
+            types = {p["name"]: p["type"]["name"] for p in a["params"]}
+            types.update({v["name"]: v["type"]["name"] for v in ef["forall"]})
+            args = []
+            for x in ef["f"]["args"]:
+                if x["op"] == "obj":
+                    args.append(x["name"])
+                elif x["op"] in ("param", "var"):
+                    args.append(rng.choice(upj.objs_of(P, types[x["name"]])))
+                else:
+                    args = None
+                    break
+            if args is not None:
+                cands.append((ef["f"]["name"], tuple(args), ef["v"]["v"]["b"]))
+    if not cands:
+        return P
+    goals, used = [], set()
+    for name, args, pos in rng.sample(cands, min(len(cands), rng.choice([1, 2, 2]))):
+        if (name, args) in used:
+            continue
+        used.add((name, args))
+        fe = upj.E("fluent", [upj.E("obj", name=o) for o in args], name=name)
+        goals.append(fe if pos else upj.E("not", [fe]))
+    return dict(P, goals=goals)
+
+
 def gen_states(rng, n):
     """1-4 seeded states that differ from a base state in a few ground fluents"""
     base = [rng.random() < 0.5 for _ in range(n)]
@@ -273,6 +306,17 @@ def _kept(K, pkeys):
     return kept
 
 
+def _warm():
+    """pool initializer: import the library and create the global environment outside any time limit (an alarm
+    that fires in the middle of a first import leaves half-initialised modules behind)"""
+    import unified_planning.shortcuts  # noqa: F401
+    import unified_planning.engines.compilers.ks0_compiler  # noqa: F401
+    import unified_planning.model.contingent  # noqa: F401
+    import unified_planning.engines.sequential_simulator  # noqa: F401
+
+    unified_planning.environment.get_environment().factory  # noqa: B018
+
+
 def worker(job):
     import random
 
@@ -410,6 +454,8 @@ def make_jobs(ctx, n_explicit, n_contingent, n_dom_trials):
 
     for k in range(n_explicit):
         P = gen_problem(g, k % 2 == 0)
+        if k % 4 < 2:
+            P = retarget_goal(ctx.rng, P)
         n = len(upj.keys_of(P))
         S = gen_states(ctx.rng, n)
         b = add(fam="explicit", P=P, inits=S)
@@ -430,15 +476,17 @@ def make_jobs(ctx, n_explicit, n_contingent, n_dom_trials):
             add(fam="explicit", P=P, inits=E, base=b["id"], variant="ext")
     for k in range(n_contingent):
         P = gen_problem(g, k % 2 == 0)
+        if k % 4 < 2:
+            P = retarget_goal(ctx.rng, P)
         add(fam="contingent", P=P, cons=gen_constraints(ctx.rng, len(upj.keys_of(P))))
     return jobs
 
 
 def run(ctx):
     q = ctx.quick
-    n_explicit, n_contingent, n_dom = (26, 26, 2) if q else (220, 220, 3)
+    n_explicit, n_contingent, n_dom = (40, 60, 1) if q else (300, 400, 2)
     jobs = make_jobs(ctx, n_explicit, n_contingent, n_dom)
-    with Pool(POOL, maxtasksperchild=60) as pool:
+    with Pool(POOL, initializer=_warm) as pool:
         recs = pool.map(worker, jobs, chunksize=2)
     stats = {"jobs": len(jobs), "skipped": {}, "raised": {}, "above_cap": 0}
     rows = []
@@ -454,7 +502,7 @@ def run(ctx):
     if not any(r["raised"] == "none" for r in rows):
         raise MachineryError("no compilation succeeded")
     # ---- stage 1+2: exhaustive explorations (K with beliefs; belief space of P) ---------------------------
-    chunk = 40
+    chunk = 60
     printed, skipped = [], []
     for i in range(0, len(rows), chunk):
         p, s = explore(ctx, rows[i:i + chunk], "b%d" % (i // chunk), stats)
@@ -497,10 +545,12 @@ def run(ctx):
         fs = features(r["P"])
         reduced = r["fam"] == "explicit" and len(r["kept"]) < len({tuple(v["b"] for v in s) for s in r["inits"]})
         extra = []
-        if clause.startswith("mapped-back") or clause.startswith("dropping") or clause.startswith("added"):
+        if clause.startswith("mapped-back") or clause.startswith("dropping") or clause.startswith("added") or clause.startswith("compiled-solvable"):
+            extra.append(r["fam"])
             extra.append("reduced" if reduced else "all-tags")
+            extra += [f for f in fs if f == "constatom"]
         if clause.startswith("conformant-plan-exists"):
-            extra += [f for f in fs if f in ("disj-pre", "disj-goal")] or ["conj"]
+            extra.append(",".join(f for f in fs if f in ("constatom", "disj-pre", "disj-goal")) or "conj")
         if clause.startswith("compiler-raises"):
             extra.append(r["raised"])
         return "|".join([clause] + extra)
@@ -512,7 +562,7 @@ def run(ctx):
             sig = sig_of(r, clause)
             seen_sig[sig] = seen_sig.get(sig, 0) + 1
             kp = None
-            if seen_sig[sig] <= 2 and nwit[0] < 8:
+            if seen_sig[sig] <= 1 and nwit[0] < 6:
                 nwit[0] += 1
                 kp = witness(ctx, r, "K", "NoFail", nwit[0])
             ctx.violation(sig, "Ks0Compiler unsound: a plan of the compiled problem maps back to a non-conformant plan (%s)" % clause,
@@ -523,7 +573,7 @@ def run(ctx):
         sig = sig_of(r, clause)
         seen_sig[sig] = seen_sig.get(sig, 0) + 1
         pp = None
-        if seen_sig[sig] <= 2 and nwit[0] < 8 and clause in ("conformant-plan-exists-but-compiled-unsolvable", "compiler-raises-but-conformant-plan-exists"):
+        if seen_sig[sig] <= 1 and nwit[0] < 6 and clause in ("conformant-plan-exists-but-compiled-unsolvable", "compiler-raises-but-conformant-plan-exists"):
             nwit[0] += 1
             pp = witness(ctx, r, "P", "NoPGoal", nwit[0])
         ctx.violation(sig, "Ks0Compiler: %s" % clause, data_of(r, clause, plan_p=pp))
